@@ -41,8 +41,8 @@ MARGIN = Fraction(1, 20)
 MASK = "premise-fails"
 MERGE_VARIANTS = [(m, f) for m in ("replace", "mean") for f in (None, 0.0, 2.5)]
 LONG_COST = 200_000  # products of the model (|s|^2 + |s| |b|) above which the array twin route is used
-POW2 = [-40, -30, 30, 60]
-DEC = ["1e-9", "1e9"]
+POW2 = [-150, -40, -30, 30, 60, 150]
+DEC = ["1e-12", "1e-9", "1e-6", "1e9"]
 SAFE_LO, SAFE_HI = 2.0 ** -200, 2.0 ** 200  # pixel magnitudes for which no product under/overflows in float64
 SINGLE_LO, SINGLE_HI = 2.0 ** -30, 2.0 ** 30  # the same for images whose transform numpy computes in single precision
 SINGLE = ("f4", "f2")  # np.fft keeps float32 (and computes float16 in float32): complex64 transforms
@@ -565,14 +565,22 @@ class C12(Prop):
 
     def generate(self, rng, tier):
         if rng.random() < 0.04:
+            if rng.random() < 0.25:
+                # extents beyond 2**31 / 2**32 on one axis (anchor_offset reads shapes only: zero-stride arrays)
+                big = lambda: rng.choice([2 ** 31 - 1, 2 ** 31, 2 ** 32 + 1, 2 ** 33 + rng.randint(0, 9), 10 ** 12 + rng.randint(0, 9)])
+                ax = rng.randrange(2)
+                side = lambda i: big() if i == ax and rng.random() < 0.8 else rng.randint(1, 60)
+                a = [side(0), side(1)]
+                bs = [[side(0), side(1)] for _ in range(12)]
+                return {"kind": "anchors", "a": a, "bs": bs}
             a = [rng.randint(1, 60), rng.randint(1, 60)]
             bs = [[rng.randint(1, 60), rng.randint(1, 60)] for _ in range(40)]
             return {"kind": "anchors", "a": a, "bs": bs}
         if rng.random() < (0.004 if tier == "quick" else 0.008):
             return self.gen_long(rng, tier)
-        if rng.random() < 0.12:
+        if rng.random() < 0.16:
             return self.gen_hist(rng, tier)
-        if rng.random() < 0.03:
+        if rng.random() < 0.04:
             return self.gen_medium(rng, tier)
         d = rng.choice([1, 1, 2, 2, 2, 3])
         hi = {1: 24, 2: 9, 3: 5}[d]
@@ -642,6 +650,9 @@ class C12(Prop):
             for sa, t in (([16], [-5]), ([5, 6], [2, -3]), ([3, 4, 3], [1, -2, 0])):
                 yield self.assemble(rng, sa, sa, t, kind, "equal", scale)
             yield self.assemble(rng, [9, 6], [3, 4], [5, 1], kind, "sub", scale)
+        # anchors with extents beyond 2**31 and 2**32 (both orders of the larger image)
+        yield {"kind": "anchors", "a": [2 ** 31 + 3, 5], "bs": [[4, 2 ** 32 + 2], [2 ** 33, 5], [7, 3], [2 ** 31, 8]]}
+        yield {"kind": "anchors", "a": [6, 9], "bs": [[2 ** 32 + 1, 4], [3, 2 ** 31 + 6]]}
         # long axes: transform length far above 1024 / above 2048, both signs, equal and unequal sizes, 1-D first
         rng = core.case_rng(0, self.id, "targeted-long", 0)
         for sa, sb, t, kind, rel in (
@@ -656,6 +667,18 @@ class C12(Prop):
                 ([2, 650], [3, 560], [-1, -200], "signed", "overlap")):
             yield self.assemble(rng, sa, sb, t, kind, rel, None, {"cls": "long"})
         yield self.assemble(rng, [800], [800], [-350], "signed", "equal", {"pow2": -40}, {"cls": "long"})
+        # medium sizes: transform lengths between the small pairs and 1024 (around 64, 128, 256, 512 and between), both signs
+        rng = core.case_rng(0, self.id, "targeted-medium", 0)
+        for sa, sb, t, kind, rel in (
+                ([40], [30], [-17], "signed", "overlap"),        # s = 69
+                ([100], [60], [-31], "real", "overlap"),         # s = 159
+                ([150], [151], [-70], "signed", "overlap"),      # s = 300
+                ([40], [500], [-333], "signed", "super"),        # s = 539
+                ([450], [450], [-200], "sparse", "equal"),       # s = 899
+                ([700], [90], [580], "signed", "far"),           # s = 789, positive and beyond s/2
+                ([20, 18], [19, 21], [-9, 7], "signed", "overlap"),
+                ([6, 7, 6], [6, 5, 7], [2, -3, -4], "signed", "overlap")):
+            yield self.assemble(rng, sa, sb, t, kind, rel, None, {"cls": "medium"})
         if tier == "thorough":
             for i in range(24):
                 yield self.gen_long(core.case_rng(0, self.id, "targeted-long", 1 + i), tier)
@@ -878,6 +901,7 @@ class C12(Prop):
             pres[key] = p if ok else None
         single = any(p is not None and p.get("dtype") in SINGLE for p in pres.values())
         bufs = {}
+        gen = {"a": 0, "b": 0}  # how often the buffer was replaced by a new array object
         impl, model, spec = {}, {}, {}
         feats = set()
         any_det = False
@@ -886,11 +910,16 @@ class C12(Prop):
         for k, (st, cont) in enumerate(zip(case["steps"], contents)):
             for key in "ab":
                 if key not in bufs or key in st.get("fresh", ""):
+                    # a new array object; the old one is released first (its id / memory may be handed out again)
+                    if bufs.pop(key, None) is not None:
+                        gen[key] += 1
+                        feats.add("history:buffer-replaced-by-a-new-array-object")
                     buf = alloc(cont[key].shape, pres[key])
                     buf[...] = cont[key]
                     if pres[key] is not None and pres[key].get("layout") == "ro":
                         buf.flags.writeable = False
                     bufs[key] = buf
+                    del buf
                 else:
                     fill_buffer(bufs[key], cont[key])  # the same object, new contents
             t = [ob - oa for oa, ob in zip(st["offA"], st["offB"])]
@@ -910,8 +939,9 @@ class C12(Prop):
                     if rep.get("zeroBg"):
                         feats.add("history:zero-background-theorem-applies")
                     if prev is not None:
-                        for pos, obj, now, was_obj, was in (("first", x, cx, prev[0], prev[2]), ("second", y, cy, prev[1], prev[3])):
-                            if obj is was_obj:
+                        ox, oy = (order[0], gen[order[0]]), (order[1], gen[order[1]])
+                        for pos, obj, now, was_obj, was in (("first", ox, cx, prev[0], prev[2]), ("second", oy, cy, prev[1], prev[3])):
+                            if obj == was_obj:
                                 same = np.array_equal(now, was)
                                 tag = "history:%s-arg-same-object-as-in-previous-call" % pos
                                 feats.add(tag)
@@ -923,11 +953,12 @@ class C12(Prop):
                                         feats.add(tag + ":edited-in-place:sum-preserved")
                                     if sorted(now.ravel().tolist()) == sorted(was.ravel().tolist()):
                                         feats.add(tag + ":edited-in-place:pixels-permuted")
-                        if x is prev[1] and y is prev[0] and x is not y:
+                        if ox == prev[1] and oy == prev[0] and ox != oy:
                             feats.add("history:arguments-swapped-since-previous-call")
                         if rep["lag"] != prev[4]:
                             feats.add("history:answer-differs-from-previous-call")
-                prev = (x, y, cx.copy(), cy.copy(), rep["lag"] if det else None)
+                prev = ((order[0], gen[order[0]]), (order[1], gen[order[1]]), cx.copy(), cy.copy(), rep["lag"] if det else None)
+                del x, y
             if k > 0:
                 feats.add("history:edit:" + str(st.get("label", "?")).split(":")[0])
         if any_det:
@@ -944,11 +975,24 @@ class C12(Prop):
 
     def eval_anchors(self, case, ctx, register):
         a = case["a"]
-        xa = np.zeros(a)
+
+        def blank(shape):
+            """an array of that shape (anchor_offset reads shapes only); large ones without memory behind them"""
+            if int(np.prod(shape, dtype=object)) <= 10 ** 5:
+                return np.zeros(shape)
+            return np.broadcast_to(np.zeros(1), tuple(shape))
+
+        if any(int(n) < 1 for n in a) or len(a) != 2 or int(np.prod(a, dtype=object)) >= 2 ** 62:
+            return outcome("invalid", "invalid", "invalid", undetermined=True, hyp=False)
+        xa = blank(a)
         impl = []
         feats = {"anchors"}
         for b in case["bs"]:
-            xb = np.zeros(b)
+            if any(int(n) < 1 for n in b) or len(b) != 2 or int(np.prod(b, dtype=object)) >= 2 ** 62:
+                return outcome("invalid", "invalid", "invalid", undetermined=True, hyp=False)
+            xb = blank(b)
+            if max(max(a), max(b)) >= 2 ** 31:
+                feats.add("anchor:extent>=2^31")
             row = []
             for an in ANCHORS:
                 try:
